@@ -16,13 +16,13 @@ chk("C01", "proof",
     "Standard rounding model (no overflow/underflow: the property's own proviso); ln uninterpreted; PolyN length <= 12; Kani anchor on |c|<=4,|x|<=3. Trusted: rustc MIR dump, own interpreter (validated every run against the native crate), z3.",
     SMT + "; Kani anchor", BOTH, "DESIGN.md §4 C01")
 chk("C02", "model_checking",
-    "Kani/CBMC decides, for every concrete segment count 1..4 (quick) / 1..6 (thorough), that Piecewise::evaluate returns bit-for-bit the value of the piece chosen by the property's index rule, for ALL non-NaN non-decreasing f64 ends and ALL non-NaN x (every breakpoint, its ulp-neighbours, +-inf, duplicates are covered symbolically).",
-    "Bound: <= 6 segments; no induction over the segment count. Trusted: Kani's translation, CBMC+CaDiCaL, probe piece type.",
-    BMC, E1, "DESIGN.md §4 C02")
+    "Two encodings of the real code decide the claim for every concrete segment count: (E2) the MIR of Piecewise::evaluate is executed symbolically for N = 1..65 (quick) / ..257 (thorough) symbolic segments and z3 proves the piece evaluated (uninterpreted EV(piece,x)) is the first whose end > x, else the last, for ALL non-NaN non-decreasing ends and ALL non-NaN x; (E1) Kani/CBMC decides the same bit for bit on the compiled code for N = 1..4 (6).",
+    "Bound: the listed segment counts (no induction over N). For N > 4 breakpoints/arguments are reals: non-NaN binary64 under IEEE comparison embeds order-isomorphically and the code only compares them; N <= 4 also bit-precisely. Trusted: rustc MIR, own interpreter, z3; Kani, CBMC.",
+    SMT + "; " + BMC, BOTH, "DESIGN.md §4 C02")
 chk("C03", "model_checking",
-    "Kani/CBMC decides bit-equality of PiecewiseEvaluator and Piecewise::evaluate after every query for all histories of Q symbolic non-NaN f64 queries on N symbolic segments, (N,Q) up to (3,3) quick and (4,4),(5,3),(3,5) thorough; thorough adds the auxiliary state-independence harness (hook) that extends the claim to histories of any length for N<=4.",
-    "Bound: history length and segment count as listed. The state-independence harness is auxiliary (stronger than the property): its failure is recorded, not reported as a violation.",
-    BMC, E1, "DESIGN.md §4 C03")
+    "(E2) PiecewiseEvaluator::new + Q evaluate calls on shared state are executed symbolically from the MIR for (N,Q) up to (8,3),(5,4) quick / (16,3),(10,4),(6,5) thorough (hundreds to ~14000 feasible paths each) and z3 proves every answer is the piece direct evaluation selects, evaluated at that argument; (E1) Kani/CBMC decides bit-equality with Piecewise::evaluate on the compiled code for (N,Q) up to (3,3) / (4,4),(5,3),(3,5); thorough adds the auxiliary state-independence harness (hook) that extends the claim to histories of any length for N<=4.",
+    "Bound: sizes as listed. Larger sizes use the order-isomorphic real embedding of non-NaN binary64 (comparisons only); small sizes also bit-precisely. The state-independence harness is auxiliary: its failure is recorded, not reported as a violation.",
+    SMT + "; " + BMC, BOTH, "DESIGN.md §4 C03")
 chk("C04", "proof",
     "constrained_spline is executed symbolically AS A WHOLE from its MIR (slicing, zips, chains, closures, f_dx, segment) for 3,4 (quick) / 3..6 (thorough) knots; for every f_dx branch pattern z3's nlsat proves over ALL real knots with strictly increasing x: ends = right abscissae, both Hermite interpolation conditions per cubic, C1 continuity, harmonic-mean/zero interior slopes, 3/2-1/2 end slopes, no divisor can vanish; ends verbatim bit-precisely; left-knot rounding bound 12u per monomial for the kernel.",
     "Exact-arithmetic meaning of the code + left-knot rounding bound; right-knot/derivative rounding bounds (conditioning (|x|/dx)^3) are not decided. Knot counts beyond the list are outside the claim.",
@@ -54,11 +54,13 @@ chk("C11", "proof",
     "F(t)=k0.y+integral follows by the fundamental theorem of calculus (mathematical step); rounding at breakpoints is one subtraction per piece (bounded per piece by C07/C09).",
     BMC + "; " + SMT, BOTH, "DESIGN.md §4 C11")
 chk("C12", "model_checking",
-    "Kani/CBMC decides that evaluate_v yields exactly one output per input, the k-th after pulling exactly k inputs, each bit-identical to the piece direct evaluation selects for the running maximum (pointwise evaluation on non-decreasing input), for (segments, arguments) up to (3,3) quick / (4,4),(5,3) thorough.",
-    "Bound: sizes as listed.", BMC, E1, "DESIGN.md §4 C12")
+    "(E2) evaluate_v is executed symbolically from the MIR with a counting input iterator for (segments, arguments) up to (9,3),(5,4) quick / (24,3),(16,4),(8,5) thorough; z3 proves each output is the piece direct evaluation selects for the running maximum, evaluated at x_k, exactly one output per input, k-th output after exactly k pulls; (E1) Kani/CBMC decides the same bit for bit on the compiled code up to (3,3) / (4,4),(5,3).",
+    "Bound: sizes as listed; real embedding of non-NaN binary64 for the large sizes (comparisons only).",
+    SMT + "; " + BMC, BOTH, "DESIGN.md §4 C12")
 chk("C13", "model_checking",
-    "Kani/CBMC decides for both merge loops (+ and -), operand lengths up to (3,2) quick / (4,4) thorough, all non-NaN non-decreasing ends and every non-NaN x: 1..N+M-1 pieces, non-decreasing non-NaN breakpoints drawn bit-identically from the operands, and the selected piece combines exactly the pieces f and g select at x.",
-    "Value clause follows by composing with C14 (coefficient-wise + and -). Bound: operand lengths as listed.", BMC, E1, "DESIGN.md §4 C13")
+    "(E2) both merge loops are executed symbolically from the MIR for operand lengths up to (4,4),(5,3),(6,2),(1,6) quick / (5,5),(8,3),(6,4) thorough (all feasible interleavings, up to ~1400 paths): 1..N+M-1 pieces, non-decreasing non-NaN breakpoints drawn from the operands, and for every x the selected piece is COMB(piece f selects, piece g selects, this operator); (E1) Kani/CBMC decides the same on the compiled code up to (3,2) / (4,4).",
+    "Value clause follows by composing with C14 (coefficient-wise + and -). Bound: operand lengths as listed; real embedding for the large sizes.",
+    SMT + "; " + BMC, BOTH, "DESIGN.md §4 C13")
 chk("C14", "proof",
     "All 61 operator impls found in the MIR dump (129 instantiations over Poly0..8, Log<T>, IntOfLog<T>, IntOfLogPoly4, PolyN) are executed symbolically in bit-precise binary64; z3 proves every output number equals the correctly rounded scalar operation on the matching input number(s) for ALL finite inputs, `*=` == `*`, translate touches only the additive constant; pointwise value statements by exact-arithmetic linearity.",
     "Finite inputs (as the property states); results compared with fp.eq (signed zeros identified).", SMT, E2, "DESIGN.md §4 C14")
